@@ -16,5 +16,5 @@ CONSTANTS
   Nauth1 = 48
   Nauth2 = 256
   Nauth5 = 64
-  Enforce = {"quiet", "request-on-wire-is-grammar", "response-on-wire-is-grammar", "honest-completes", "count", "token-layout", "token-verifies-under-pinned-key", "issuer-verify-accepts", "unknown-event"}
+  Enforce = {"returned-tokens-keep-their-value", "quiet", "request-on-wire-is-grammar", "response-on-wire-is-grammar", "honest-completes", "count", "token-layout", "token-verifies-under-pinned-key", "issuer-verify-accepts", "unknown-event"}
 CHECK_DEADLOCK FALSE
